@@ -284,4 +284,6 @@ class NullLogger:
     log_name = ""
 
     def __getattr__(self, k):
+        if k in ("getChild", "getLogger"):
+            return lambda *a, **kw: NullLogger()
         return lambda *a, **kw: None
